@@ -97,6 +97,8 @@ def run_config(cfg, res):
         name = r.choice(pool)
       else:
         name = 'q%d.%s' % (i, gen.metric_name(r, nonascii=r.random() < 0.5, punct=r.random() < 0.3))
+        if r.random() < 0.06:
+          name = r.choice(gen.ODD_NAMES) + ('' if r.random() < 0.5 else '.q%d' % i)      # invisible characters, also in front
         if len(pool) < 12:
           pool.append(name)
       v = gen.value(r)
